@@ -30,7 +30,11 @@ var (
 	scale    = flag.Int("scale", 1, "multiply generated case counts (search mode uses 10)")
 	nomodel  = flag.Bool("nomodel", false, "property oracle on the implementation only (search mode / driver unavailable)")
 	hints    = flag.String("hints", "", "file of protocol lines that disagreed; their inputs are pushed through the oracle first")
+	part     = flag.String("part", "spec", "spec: code vs Spec.RFC3986 + class oracle (property C12 as before); wrap: code vs the Lean model of ParsedIRI/net/url (part C12W, wrap.go); all: both")
 )
+
+func doSpec() bool { return *part != "wrap" }
+func doWrap() bool { return *part != "spec" }
 
 // development aid (not a flag, so that the command line stays that of cmd/c01): C12_TRIAGE=1 prints
 // every unclassified deviation grouped by the classes that hold on it instead of failing
@@ -219,6 +223,12 @@ func (g *run) add(kind, line, goR, a, b string, nontrivial bool) {
 }
 
 func (g *run) pair(base, ref string) {
+	if doWrap() {
+		g.wPair(base, ref)
+	}
+	if !doSpec() {
+		return
+	}
 	got := g.oracleResolve(base, ref)
 	rp := rfcSplit(ref)
 	nontrivial := !rp.hasScheme && (strings.Contains(ref, ".") || strings.Contains(ref, "/") || ref == "" || rp.hasQuery || rp.hasFragment)
@@ -248,6 +258,12 @@ func effOpaque(p *iri.ParsedIRI) bool {
 // private state of every chain result (effective opaque flag, forceFragment) is compared with that of
 // ParseIRI(result.String()): a chain result must be indistinguishable from a freshly parsed base.
 func (g *run) chain(b0 string, refs []string) {
+	if doWrap() {
+		g.wChain(b0, refs)
+	}
+	if !doSpec() {
+		return
+	}
 	toks := []string{vh.XS(b0)}
 	for _, r := range refs {
 		toks = append(toks, vh.XS(r))
@@ -342,6 +358,12 @@ func (g *run) chain(b0 string, refs []string) {
 }
 
 func (g *run) single(s string) {
+	if doWrap() {
+		g.wSingle(s)
+	}
+	if !doSpec() {
+		return
+	}
 	got := g.oracleParse(s)
 	g.add("parse", "iri.parse "+vh.XS(s), got, s, "", true)
 	g.classesOp(true, s, "")
@@ -395,6 +417,9 @@ func (g *run) shape(base, ref string) {
 }
 
 func (g *run) resolvePathCase(base, ref string) {
+	if !doSpec() {
+		return
+	}
 	g.add("resolvePath", "iri.resolvePath "+vh.XS(base)+" "+vh.XS(ref), goResolvePath(base, ref), base, ref, strings.Contains(base+ref, "."))
 }
 
@@ -538,6 +563,9 @@ func (g *run) flush() {
 	}
 	for i, it := range g.items {
 		rep.Compared++
+		if g.wCompare(it, res[i]) {
+			continue
+		}
 		if res[i] == it.goR {
 			continue
 		}
@@ -568,7 +596,11 @@ func (g *run) flush() {
 func main() {
 	flag.Parse()
 	seed := vh.SeedFromEnv()
-	rep := vh.NewReport("C12", *tier, seed, "pairs (absolute base IRI, IRI reference) generated from the RFC 3987 grammar (hierarchical and opaque schemes, empty/absent authority, userinfo, ports, IP literals, non-ASCII and pct-encoded hosts, empty and dot segments, %xx of either case, empty vs absent query/fragment), byte-level mutations of the reference, bounded-exhaustive path pairs over a 5-component alphabet; non-trivial = the reference is relative and has a dot, a slash, a query, a fragment or is empty")
+	repName := "C12"
+	if *part == "wrap" {
+		repName = "C12W"
+	}
+	rep := vh.NewReport(repName, *tier, seed, "pairs (absolute base IRI, IRI reference) generated from the RFC 3987 grammar (hierarchical and opaque schemes, empty/absent authority, userinfo, ports, IP literals, non-ASCII and pct-encoded hosts, empty and dot segments, %xx of either case, empty vs absent query/fragment), byte-level mutations of the reference, bounded-exhaustive path pairs over a 5-component alphabet; non-trivial = the reference is relative and has a dot, a slash, a query, a fragment or is empty")
 	// Fork: vh.NewRng(k+1) is vh.NewRng(k) shifted by one draw; the first output is a well-mixed hash of the seed.
 	rep.Cases = []vh.Case{} // never null in the JSON report
 	g := &run{r: vh.NewRng(seed).Fork(), rep: rep, tri: map[string][]string{}}
@@ -624,6 +656,18 @@ func main() {
 					rs = append(rs, un(t))
 				}
 				g.chain(un(f[1]), rs)
+			case len(f) == 3 && f[0] == "piri.resolve":
+				g.wPair(un(f[1]), un(f[2]))
+			case len(f) == 2 && (f[0] == "piri.parse" || f[0] == "piri.base"):
+				g.wSingle(un(f[1]))
+			case len(f) == 4 && (f[0] == "piri.class" || f[0] == "piri.hyp"):
+				g.wClass(f[1] == "p", un(f[2]), un(f[3]))
+			case len(f) >= 3 && f[0] == "piri.chain":
+				rs := []string{}
+				for _, t := range f[2:] {
+					rs = append(rs, un(t))
+				}
+				g.wChain(un(f[1]), rs)
 			case len(f) == 3 && f[0] == "iri.resolvePath":
 				g.resolvePathCase(un(f[1]), un(f[2]))
 			}
@@ -649,9 +693,20 @@ func main() {
 		n := 150000 * *scale
 		if *tier == "thorough" {
 			n = 6000000 * *scale
+			if *part == "wrap" {
+				n = 3000000 * *scale
+			}
 			g.exhaustive(5, 4)
 		} else {
 			g.exhaustive(3, 3)
+		}
+		if doWrap() {
+			if *tier == "thorough" {
+				g.wExhaustive(6, 3)
+			} else {
+				g.wExhaustive(5, 2)
+			}
+			g.wIPv6(n / 20)
 		}
 		g.generated(n)
 	}
